@@ -77,6 +77,96 @@ struct IntrusiveTreiber : IStack {
     }
 };
 
+// Hidden variants `treiber_hp_elim_named` / `treiber_dhp_elim_named`: the elimination variant with symbolic names for
+// everything the Lean machine Algo/Elim speaks about (tie A, `cdsdriver replay elim` after tools/elim_pre.py):
+//   top, n<k> (node k's m_pNext, k = order of push invocation), slot<i>.lock (spin lock of collision slot i),
+//   op<t>.status (nStatus of the descriptor of thread t's operation in progress; the descriptor is a local of
+//   push()/pop(), it is named when backoff() calls clear_record(): names are resolved when the trace is rendered).
+// The inputs of a back-off round are reported by a note `T <t> ELIM <slot> <extra waits>` when slot_index() draws
+// from the random engine: slot = what slot_index() computes from the drawn number; the harness build of
+// backoff::delay<>::operator()( pred ) evaluates the predicate exactly once (0 extra evaluations).
+static size_t g_elim_capacity = 1;
+struct noting_engine {
+    typedef unsigned int result_type;
+    unsigned int s = 12345;
+    result_type operator()()
+    {
+        s = s * 1103515245u + 12345u;
+        result_type r = s >> 8;
+        char nm[48];
+        std::snprintf( nm, sizeof nm, "ELIM %zu 0", size_t( r ) & ( g_elim_capacity - 1 ));
+        ev_note( nm );
+        return r;
+    }
+    static constexpr result_type min() { return 0; }
+    static constexpr result_type max() { return 0x00ffffffu; }
+};
+template <class Item>
+struct naming_storage {
+    static cds::algo::elimination::record& get() noexcept
+    {
+        cds::algo::elimination::record& r = cds::algo::elimination::storage::get();
+        if ( r.pOp && current_tid() >= 0 ) {
+            ci::treiber_stack::operation<Item>* op = static_cast<ci::treiber_stack::operation<Item>*>( r.pOp );
+            char nm[32];
+            std::snprintf( nm, sizeof nm, "op%d.status", current_tid());
+            if ( !has_name( &op->nStatus ))
+                reg_name( &op->nStatus, sizeof( op->nStatus ), nm );
+        }
+        return r;
+    }
+};
+template <class GC>
+struct NamedElimTreiber : IStack {
+    struct item : ci::treiber_stack::node<GC> { long v; };
+    struct traits : ci::treiber_stack::traits {
+        typedef ci::treiber_stack::base_hook< cds::opt::gc<GC> > hook;
+        static constexpr bool const enable_elimination = true;
+        typedef noting_engine random_engine;
+        typedef cds::opt::v::initialized_dynamic_buffer<int> buffer;
+        typedef naming_storage<item> elimination_storage;
+    };
+    typedef ci::TreiberStack<GC, item, traits> stack_t;
+    std::unique_ptr<stack_t> st;
+    std::vector<std::unique_ptr<item>> items;
+    explicit NamedElimTreiber( size_t coll ) : st( new stack_t( coll ))
+    {
+        reg_name( &st->m_Top, sizeof( st->m_Top ), "top" );
+        auto& arr = st->m_Backoff.m_Elimination.collisions;
+        g_elim_capacity = arr.capacity();
+        for ( size_t i = 0; i < arr.capacity(); ++i ) {
+            char nm[32];
+            std::snprintf( nm, sizeof nm, "slot%zu.lock", i );
+            reg_name( &arr[i].lock, sizeof( arr[i].lock ), nm );
+        }
+    }
+    ~NamedElimTreiber()
+    {
+        while ( st->pop()) {}
+        st.reset();
+        GC::force_dispose();
+    }
+    bool push( long v ) override
+    {
+        set_quiet( true );
+        items.emplace_back( new item );
+        set_quiet( false );
+        item* p = items.back().get();
+        p->v = v;
+        char nm[32];
+        std::snprintf( nm, sizeof nm, "n%zu", items.size());
+        reg_name( &p->m_pNext, sizeof( p->m_pNext ), nm );
+        return st->push( *p );
+    }
+    bool pop( long& v ) override
+    {
+        item* p = st->pop();
+        if ( !p ) return false;
+        v = p->v;
+        return true;
+    }
+};
+
 template <class GC, bool Elim>
 struct ContainerTreiber : IStack {
     struct traits : cc::treiber_stack::traits {
@@ -125,6 +215,8 @@ struct Fixture {
         else if ( v == "treiber_dhp" ) { s.reset( new IntrusiveTreiber<cds::gc::DHP, false>( coll )); dhp = true; }
         else if ( v == "treiber_hp_elim" ) s.reset( new IntrusiveTreiber<cds::gc::HP, true>( coll ));
         else if ( v == "treiber_dhp_elim" ) { s.reset( new IntrusiveTreiber<cds::gc::DHP, true>( coll )); dhp = true; }
+        else if ( v == "treiber_hp_elim_named" ) s.reset( new NamedElimTreiber<cds::gc::HP>( c.optl( "coll", long( coll ))));
+        else if ( v == "treiber_dhp_elim_named" ) { s.reset( new NamedElimTreiber<cds::gc::DHP>( c.optl( "coll", long( coll )))); dhp = true; }
         else if ( v == "ctreiber_hp" ) s.reset( new ContainerTreiber<cds::gc::HP, false>( coll ));
         else if ( v == "ctreiber_dhp" ) { s.reset( new ContainerTreiber<cds::gc::DHP, false>( coll )); dhp = true; }
         else if ( v == "ctreiber_hp_elim" ) s.reset( new ContainerTreiber<cds::gc::HP, true>( coll ));
